@@ -44,6 +44,12 @@ def families():
     fam.append(("req-chunks", lambda k: (b"POST / HTTP/1.1\r\nHost: h\r\nTransfer-Encoding: chunked\r\n\r\n" + b"1\r\na\r\n" * k + b"0\r\n\r\n", b"")))
     fam.append(("res-chunks", lambda k: (G + b"\r\n", OK + b"Transfer-Encoding: chunked\r\n\r\n" + b"1\r\na\r\n" * k + b"0\r\n\r\n")))
     fam.append(("res-chunk-ext", lambda k: (G + b"\r\n", OK + b"Transfer-Encoding: chunked\r\n\r\n" + b"1;x=y\r\na\r\n" * k + b"0\r\n\r\n")))
+    CH = G + b"\r\n", OK + b"Transfer-Encoding: chunked\r\n\r\n"
+    # runs inside ONE chunk-size line (not capped by the hard field limit while the line sits in one data chunk)
+    fam.append(("res-chunkline-ctl-run", lambda k: (CH[0], CH[1] + b"\t" * k + b"1\r\na\r\n0\r\n\r\n")))
+    fam.append(("res-chunkline-ctl-then-digits", lambda k: (CH[0], CH[1] + b"\t" * k + b"0" * k + b"1\r\na\r\n0\r\n\r\n")))
+    fam.append(("res-chunkline-digits", lambda k: (CH[0], CH[1] + b"0" * k + b"1\r\na\r\n0\r\n\r\n")))
+    fam.append(("req-chunkline-ctl-then-digits", lambda k: (b"POST / HTTP/1.1\r\nHost: h\r\nTransfer-Encoding: chunked\r\n\r\n" + b"\t" * k + b"0" * k + b"1\r\na\r\n0\r\n\r\n", b"")))
     fam.append(("req-urlenc-params", lambda k: (b"POST /?" + b"&".join(b"q%d=1" % i for i in range(min(k, 400))) + b" HTTP/1.1\r\nHost: h\r\n"
                                                 b"Content-Type: application/x-www-form-urlencoded\r\nContent-Length: %d\r\n\r\n" % len(b"".join(b"a%d=1&" % i for i in range(k))) +
                                                 b"".join(b"a%d=1&" % i for i in range(k)), b"")))
